@@ -32,8 +32,10 @@ import (
 
 	"github.com/LemoFoundationLtd/lemochain-core/chain/types"
 	"github.com/LemoFoundationLtd/lemochain-core/common"
+	"github.com/LemoFoundationLtd/lemochain-core/common/rlp"
 	"github.com/LemoFoundationLtd/lemochain-core/store"
 	"github.com/LemoFoundationLtd/lemochain-core/store/leveldb"
+	"github.com/LemoFoundationLtd/lemochain-core/store/trie"
 )
 
 func init() { subs["c08child"] = c08Child }
@@ -227,6 +229,45 @@ type c08Workload struct {
 	// Exp[h][addrHex] = balance string as of block h ; Cand[h][addrHex] = votes
 	Exp  []map[string]string
 	Cand []map[string]string
+	// contract code written while block h is executed (un-batched SetContractCode) and the version trie of block h
+	// (nodes written by TrieDatabase.Commit while the block is inserted): Codes[h], CodeHash[h], Roots[h], TrieKV[h]
+	Codes    [][]byte
+	CodeHash []common.Hash
+	Roots    []common.Hash
+	TrieKV   []map[string]string
+}
+
+func c08AccDigest(acc *types.AccountData) string {
+	b, err := rlp.EncodeToBytes(acc)
+	if err != nil {
+		return "encode-error"
+	}
+	return fmt.Sprintf("%s/%d:%d", acc.Balance.String(), len(b), fnv32(b))
+}
+
+var c08TrieKeys = []string{"alpha", "beta", "gamma-key-that-is-a-little-longer"}
+
+// c08TrieStep applies block h's changes to the version trie rooted at `root` in `tdb` and commits the nodes
+func c08TrieStep(tdb *store.TrieDatabase, root common.Hash, kv map[string]string) (common.Hash, error) {
+	t, err := trie.NewSecure(root, tdb, 120)
+	if err != nil {
+		return common.Hash{}, err
+	}
+	keys := make([]string, 0, len(kv))
+	for k := range kv {
+		keys = append(keys, k)
+	}
+	sort.Strings(keys)
+	for _, k := range keys {
+		if err := t.TryUpdate([]byte(k), []byte(kv[k])); err != nil {
+			return common.Hash{}, err
+		}
+	}
+	newRoot, err := t.Commit(nil)
+	if err != nil {
+		return common.Hash{}, err
+	}
+	return newRoot, tdb.Commit(newRoot, false)
 }
 
 func c08Addr(i int) common.Address {
@@ -278,7 +319,7 @@ func c08MakeWorkload(seed int64, idx int, H int) *c08Workload {
 				acc.Candidate.Votes = big.NewInt(int64(100*h + i))
 				cands[a.Hex()] = acc.Candidate.Votes.String()
 			}
-			state[a.Hex()] = acc.Balance.String()
+			state[a.Hex()] = c08AccDigest(acc)
 			ch = append(ch, acc)
 		}
 		w.Changes = append(w.Changes, ch)
@@ -292,6 +333,33 @@ func c08MakeWorkload(seed int64, idx int, H int) *c08Workload {
 			cc[k] = v
 		}
 		w.Cand = append(w.Cand, cc)
+		// contract code of block h and the changes of the version trie
+		code := bytes.Repeat([]byte{byte(0x60 + h), byte(idx), 0x5b}, 100+37*h)
+		w.Codes = append(w.Codes, code)
+		var ch32 common.Hash
+		binary.BigEndian.PutUint32(ch32[0:], fnv32(code))
+		binary.BigEndian.PutUint32(ch32[28:], uint32(h+1))
+		ch32[4] = 0xc0
+		w.CodeHash = append(w.CodeHash, ch32)
+		kv := map[string]string{}
+		for i, k := range c08TrieKeys {
+			if h == 0 || (i+h)%2 == 0 {
+				kv[k] = fmt.Sprintf("value-%d-%d-%d-%s", idx, h, i, strings.Repeat("x", 10*i))
+			}
+		}
+		w.TrieKV = append(w.TrieKV, kv)
+	}
+	// the roots a node computes for this workload (memory database: nothing of this is tied to a data directory)
+	mem, _ := store.NewMemDatabase()
+	tdb := store.NewTrieDatabase(mem)
+	var root common.Hash
+	for h := 0; h <= H; h++ {
+		r, err := c08TrieStep(tdb, root, w.TrieKV[h])
+		if err != nil {
+			panic("workload trie: " + err.Error())
+		}
+		root = r
+		w.Roots = append(w.Roots, r)
 	}
 	return w
 }
@@ -309,6 +377,24 @@ func (w *c08Workload) apply(db *store.ChainDatabase, h int) (setBlock, setStable
 	}
 	for _, a := range w.Changes[h] {
 		act.Put(a, uint32(h))
+	}
+	if h < len(w.Roots) {
+		// executing the block: contract code (un-batched Put) and the version trie, computed on top of the trie the
+		// data directory holds for the parent ("computes the same hashes")
+		if err := db.SetContractCode(w.CodeHash[h], w.Codes[h]); err != nil {
+			return setBlock, "code:" + c08DbErr(err)
+		}
+		var parentRoot common.Hash
+		if h > 0 {
+			parentRoot = w.Roots[h-1]
+		}
+		root, err := c08TrieStep(db.GetTrieDatabase(), parentRoot, w.TrieKV[h])
+		if err != nil {
+			return setBlock, "trie:" + c08DbErr(err)
+		}
+		if root != w.Roots[h] {
+			return setBlock, "trie-root-differs"
+		}
 	}
 	_, err = db.SetStableBlock(blk.Hash())
 	return setBlock, c08DbErr(err)
@@ -341,6 +427,9 @@ type c08Dump struct {
 	ByHash     []string          `json:"byHash"`   // "ok"/error for the workload's blocks 0..H
 	Accounts   map[string]string `json:"accounts"`
 	Cands      map[string]string `json:"cands"`
+	Top        map[string]string `json:"top"`   // GetCandidatesTop(stable hash)
+	Codes      []string          `json:"codes"` // GetContractCode(CodeHash[h]) for h = 0..H
+	Tries      []string          `json:"tries"` // every key of the version trie read from Roots[h]
 	Idle       bool              `json:"idle"`
 }
 
@@ -388,7 +477,50 @@ func c08Observe(db *store.ChainDatabase, w *c08Workload) *c08Dump {
 			if acc.Address != a {
 				return "wrong-address"
 			}
-			return acc.Balance.String()
+			return c08AccDigest(acc)
+		})
+	}
+	for h := 0; h < len(w.Roots); h++ {
+		d.Codes = append(d.Codes, Safe(func() string {
+			code, err := db.GetContractCode(w.CodeHash[h])
+			if err != nil {
+				return c08DbErr(err)
+			}
+			if !bytes.Equal(code, w.Codes[h]) {
+				return fmt.Sprintf("wrong-code(%d bytes, want %d)", len(code), len(w.Codes[h]))
+			}
+			return "ok"
+		}))
+		d.Tries = append(d.Tries, Safe(func() string {
+			t, err := trie.NewSecure(w.Roots[h], db.GetTrieDatabase(), 120)
+			if err != nil {
+				return "open:" + c08DbErr(err)
+			}
+			want := map[string]string{}
+			for g := 0; g <= h; g++ {
+				for k, v := range w.TrieKV[g] {
+					want[k] = v
+				}
+			}
+			for k, v := range want {
+				got, err := t.TryGet([]byte(k))
+				if err != nil {
+					return "get:" + c08DbErr(err)
+				}
+				if string(got) != v {
+					return "wrong-value(" + k + ")"
+				}
+			}
+			return "ok"
+		}))
+	}
+	if d.Stable >= 0 {
+		d.Top = map[string]string{}
+		Safe(func() string {
+			for _, cd := range db.GetCandidatesTop(w.Blocks[d.Stable].Hash()) {
+				d.Top[cd.Address.Hex()] = cd.Total.String()
+			}
+			return ""
 		})
 	}
 	Safe(func() string {
@@ -440,6 +572,10 @@ func c08Child(c *Ctx) {
 			out.Cont = append(out.Cont, fmt.Sprintf("%d:%s/%s", h, sb, ss))
 		}
 		out.Second = c08Observe(db, w)
+		if g2 := os.Getenv("C08_GEN2"); g2 != "" {
+			// second generation: what this (restarted, continued) node has on disk right now
+			c08CopyDir(dir, g2)
+		}
 		db.Close()
 		time.Sleep(10 * time.Millisecond)
 		_, msg := SafeMsg(func() string {
@@ -470,6 +606,8 @@ type c08Image struct {
 	// back must be EXACTLY the list as of promotion candsOld or as of candsOld+1 (old or new file), and the
 	// workload is not continued on it
 	candsOld int
+	gen2     string // if set: the child copies its directory there after continuing (second-generation image)
+	upTo     int    // continue the workload up to this block (0 = default H)
 }
 
 func c08RunChild(c *Ctx, img *c08Image, wl, H, upTo int) (*c08ChildOut, string) {
@@ -479,7 +617,7 @@ func c08RunChild(c *Ctx, img *c08Image, wl, H, upTo int) (*c08ChildOut, string) 
 	os.MkdirAll(outDir, 0755)
 	defer os.RemoveAll(outDir)
 	cmd := exec.CommandContext(ctx, os.Args[0], "c08child", "-seed", fmt.Sprint(c.Seed), "-out", outDir)
-	cmd.Env = append(os.Environ(), "C08_DIR="+img.dir, fmt.Sprintf("C08_WL=%d", wl), fmt.Sprintf("C08_H=%d", H), fmt.Sprintf("C08_UPTO=%d", upTo))
+	cmd.Env = append(os.Environ(), "C08_DIR="+img.dir, fmt.Sprintf("C08_WL=%d", wl), fmt.Sprintf("C08_H=%d", H), fmt.Sprintf("C08_UPTO=%d", upTo), "C08_GEN2="+img.gen2)
 	var stdout, stderr bytes.Buffer
 	cmd.Stdout = &stdout
 	cmd.Stderr = &stderr
@@ -584,6 +722,19 @@ func c08CheckDump(c *Ctx, w *c08Workload, img *c08Image, d *c08Dump, phase strin
 			} else {
 				fail("c08/account-mismatch", fmt.Sprintf("stable block is %d but account data is not as of that block: %s", s, c08MapDiff(d.Accounts, w.Exp[s])))
 			}
+		}
+		for h := 0; h <= s && h < len(d.Codes); h++ {
+			if d.Codes[h] != "ok" {
+				fail("c08/code-unreadable", fmt.Sprintf("contract code written while block %d was executed: GetContractCode = %s (stable %d)", h, d.Codes[h], s))
+			}
+			if d.Tries[h] != "ok" {
+				fail("c08/trie-unreadable", fmt.Sprintf("version trie of block %d read from its root: %s (stable %d)", h, d.Tries[h], s))
+			}
+		}
+		// the start-up rebuild of the vote top (NewChainDataBase: context.data filtered by the accounts' profiles);
+		// only right after a (re)open: the workload does not call CandidatesRanking, so a running node's Top is not maintained
+		if strings.Contains(phase, "reopen") && img.candsOld < 0 && d.Top != nil && c08MapEq(d.Cands, w.Cand[s]) && !c08MapEq(d.Top, w.Cand[s]) {
+			fail("c08/candidates-top-mismatch", fmt.Sprintf("stable %d: context.data holds the right candidates but GetCandidatesTop differs: %s", s, c08MapDiff(d.Top, w.Cand[s])))
 		}
 		if img.candsOld >= 0 {
 			if !c08MapEq(d.Cands, w.Cand[img.candsOld]) && !c08MapEq(d.Cands, w.Cand[img.candsOld+1]) {
@@ -737,14 +888,24 @@ func c08ChainOracle(c *Ctx, base string) {
 			}
 			batch := batches[h]
 			// record layout of the batch of promotion h
+			// (tmp.data may start with records written while block h was executed — contract code, trie nodes —
+			// if the writer had not drained them before the batch was appended; the batch starts at the block record)
 			type recPos struct{ start, body, end int }
 			var recs []recPos
+			batchStart := -1
 			for off := 0; off+18 <= len(batch); {
 				bl := int(binary.LittleEndian.Uint32(batch[off+4:]))
 				end := off + int(store.FileUtilsAlign(uint32(18+bl)))
+				if batchStart < 0 && binary.LittleEndian.Uint32(batch[off:]) == leveldb.ItemFlagBlock {
+					batchStart = len(recs)
+				}
 				recs = append(recs, recPos{off, bl, end})
 				off = end
 			}
+			if batchStart < 0 {
+				batchStart = 0
+			}
+			c.Count(fmt.Sprintf("chain:insert-time-records-in-wal=%d", batchStart))
 			// clean: snapshot after promotion h-1 exactly as it is on disk (tmp.data still holds batch h-1: redelivery)
 			newImg(snaps[h-1], fmt.Sprintf("after promotion %d completed (tmp.data still holds its batch)", h-1), "clean", "redelivery-of-applied-batch", h-1, -1)
 			// crash inside emptyFile: tmp.data removed, not yet recreated
@@ -771,19 +932,22 @@ func c08ChainOracle(c *Ctx, base string) {
 					}
 					// root cause = how many records of the batch are completely (head + body) in the file
 					complete := 0
-					for _, rp := range recs {
+					for _, rp := range recs[batchStart:] {
 						if ct.off >= rp.start+18+rp.body {
 							complete++
 						}
 					}
+					nb := len(recs) - batchStart
 					cause := "batch-torn-between-records"
 					switch {
+					case j < batchStart:
+						cause = "insert-time-record-torn"
 					case complete == 0:
 						cause = "first-record-of-batch-torn"
-					case complete == len(recs):
+					case complete == nb:
 						cause = "batch-durable-pointer-not-moved"
 					}
-					im := newImg(snaps[h-1], fmt.Sprintf("promotion %d: tmp.data append cut at byte %d of %d (inside record %d of %d: %s; %d of %d records complete)", h, ct.off, len(batch), j+1, len(recs), class, complete, len(recs)), class, cause, h-1, h)
+					im := newImg(snaps[h-1], fmt.Sprintf("promotion %d: tmp.data append cut at byte %d of %d (inside record %d of %d: %s; %d of the %d records of the batch complete)", h, ct.off, len(batch), j+1, len(recs), class, complete, nb), class, cause, h-1, h)
 					os.WriteFile(filepath.Join(im.dir, "tmp.data"), batch[:ct.off], 0644)
 					im.replay["cut"] = ct.off
 					im.replay["batch_len"] = len(batch)
@@ -850,6 +1014,19 @@ func c08ChainOracle(c *Ctx, base string) {
 			}
 		}
 
+		// a few first-generation images also produce a second-generation image: the child continues by ONE block only
+		var gen2s []*c08Image
+		{
+			picked := map[string]bool{}
+			for _, img := range images {
+				if (img.cause == "first-record-of-batch-torn" || img.cause == "wal-removed-not-recreated" || img.cause == "insert-time-record-torn") && !picked[img.cause] && img.inflight >= 0 && img.inflight < H {
+					picked[img.cause] = true
+					img.gen2 = img.dir + ".gen2"
+					img.upTo = img.inflight
+					gen2s = append(gen2s, &c08Image{name: img.name, dir: img.gen2, completed: img.inflight})
+				}
+			}
+		}
 		// run the children (4 at a time)
 		type result struct {
 			out *c08ChildOut
@@ -873,6 +1050,9 @@ func c08ChainOracle(c *Ctx, base string) {
 				upTo := H
 				if img.candsOld >= 0 {
 					upTo = -1
+				}
+				if img.upTo > 0 {
+					upTo = img.upTo
 				}
 				o, die := c08RunChild(c, img, wl, H, upTo)
 				if o == nil && strings.Contains(die, "timeout (hang)") {
@@ -909,11 +1089,15 @@ func c08ChainOracle(c *Ctx, base string) {
 						break
 					}
 				}
+				end := H
+				if img.upTo > 0 {
+					end = img.upTo
+				}
 				if r.out.Second != nil && len(fails) == 0 {
-					fails = append(fails, c08CheckDump(c, w, img, r.out.Second, "after continuing to block H", H, H)...)
+					fails = append(fails, c08CheckDump(c, w, img, r.out.Second, "after continuing", end, end)...)
 				}
 				if r.out.Reopen2 != nil && len(fails) == 0 {
-					fails = append(fails, c08CheckDump(c, w, img, r.out.Reopen2, "second clean reopen", H, H)...)
+					fails = append(fails, c08CheckDump(c, w, img, r.out.Reopen2, "second clean reopen", end, end)...)
 				}
 				for _, nt := range r.out.Notes {
 					fails = append(fails, "c08/reopen-panic")
@@ -925,6 +1109,61 @@ func c08ChainOracle(c *Ctx, base string) {
 			} else {
 				sort.Strings(fails)
 				c.Count("chain:" + img.class + ":" + strings.TrimPrefix(fails[0], "c08/"))
+			}
+		}
+		// second-generation crash images: a node that was restarted from a crash image and continued dies again
+		// with a torn tmp.data
+		for gi, g2 := range gen2s {
+			data, err := os.ReadFile(filepath.Join(g2.dir, "tmp.data"))
+			if err != nil || len(data) < 512 {
+				os.RemoveAll(g2.dir)
+				continue
+			}
+			// cut inside the body of the last record
+			last, lastBody := 0, 0
+			for off := 0; off+18 <= len(data); {
+				bl := int(binary.LittleEndian.Uint32(data[off+4:]))
+				adv := int(store.FileUtilsAlign(uint32(18 + bl)))
+				if adv == 0 || off+adv > len(data) {
+					break
+				}
+				last, lastBody = off, bl
+				off += adv
+			}
+			cut := last + 18 + lastBody/2
+			os.WriteFile(filepath.Join(g2.dir, "tmp.data"), data[:cut], 0644)
+			img := &c08Image{candsOld: -1, name: fmt.Sprintf("second generation: the node restarted from [%s], continued to block %d and died again with tmp.data cut at byte %d of %d", g2.name, g2.completed, cut, len(data)), class: "second-generation", cause: "second-generation-torn-wal", dir: g2.dir, completed: g2.completed, inflight: -1}
+			img.replay = map[string]interface{}{"level": "ChainDatabase", "generation": 2, "first": g2.name, "cut": cut}
+			o, die := c08RunChild(c, img, wl, H, H)
+			os.RemoveAll(g2.dir)
+			_ = gi
+			if o == nil {
+				c.Count("chain:second-generation:process-died")
+				c08Fail(c, "c08/reopen-crash/"+img.cause, fmt.Sprintf("[%s] the process reopening the data directory dies: %s", img.name, die), img.replay)
+				continue
+			}
+			if o.OpenPanic != "" {
+				c.Count("chain:second-generation:reopen-panic")
+				c08Fail(c, "c08/reopen-panic/"+img.cause, fmt.Sprintf("[%s] NewChainDataBase panics: %s", img.name, o.OpenPanic), img.replay)
+				continue
+			}
+			fails := c08CheckDump(c, w, img, o.First, "after reopen", img.completed, img.completed)
+			if len(fails) == 0 && o.Second != nil {
+				for _, s := range o.Cont {
+					if !strings.HasSuffix(s, ":ok/ok") {
+						fails = append(fails, "c08/restart-rejects-block")
+						c08Fail(c, "c08/restart-rejects-block/"+img.cause, fmt.Sprintf("[%s] %v", img.name, o.Cont), img.replay)
+						break
+					}
+				}
+				if len(fails) == 0 {
+					fails = append(fails, c08CheckDump(c, w, img, o.Second, "after continuing to block H", H, H)...)
+				}
+			}
+			if len(fails) == 0 {
+				c.Count("chain:second-generation:intact")
+			} else {
+				c.Count("chain:second-generation:" + strings.TrimPrefix(fails[0], "c08/"))
 			}
 		}
 		for _, s := range snaps {
